@@ -101,14 +101,53 @@ def scope_consts(repo):
 
     # ---- completion filters ---------------------------------------------------------------------
     cs = extract.strip_comments(extract.read(repo, "manager/completion_service.rs"))
+    variants = re.findall(r"^\s*(\w+)\s*,?\s*$", re.sub(r"#\[[^\]]*\]", "", st[st.index("enum SymbolType"):st.index("}", st.index("enum SymbolType"))].split("{", 1)[1]), re.M)
+    if len(variants) < 6:
+        raise ValueError("enum SymbolType not read")
+
+    def predicate_sets():
+        """`fn p(x: &SymbolType) -> bool { matches!(x, A | B) }` helpers of the completion service -> {p: {A, B}}"""
+        out = {}
+        for m in re.finditer(r"fn\s+(\w+)\s*\(\s*(\w+)\s*:\s*&?\s*SymbolType\s*\)\s*->\s*bool\s*\{\s*matches!\s*\(\s*\*?\2\s*,([^)]*)\)\s*\}", cs):
+            out[m.group(1)] = set(re.findall(r"SymbolType::(\w+)", m.group(3)))
+        return out
+
     def kinds(fn, verdict):
+        """the kinds for which the `.filter(|sym_info| …)` closure of fn returns `verdict`: read off the arm
+        `A | B => return <verdict>` (source order), or — when the closure is written with predicate helpers, `!`, `&&`, `||`,
+        `if … {…} else {…}` — by evaluating it for every variant of SymbolType (enum order).  Anything else fails closed."""
         body = extract.fn_body(cs, fn)
         m = re.search(r"((?:SymbolType::\w+\s*\|?\s*)+)=>\s*return\s+%s" % verdict, body)
-        if not m:
+        if m:
+            return re.findall(r"SymbolType::(\w+)", m.group(1))
+        f = re.search(r"\.filter\(\s*\|\s*sym_info\s*\|", body)
+        if not f:
             raise ValueError("filter arm of %s not found" % fn)
-        return re.findall(r"SymbolType::(\w+)", m.group(1))
-    rhs_keep = kinds("generate_completion_items_rhs", "true")
-    lhs_drop = kinds("generate_completion_items_lhs", "false")
+        expr = extract.paren_arg(body, body.index("(", f.start()))
+        expr = expr[expr.index("|", expr.index("|") + 1) + 1:].strip()
+        preds = predicate_sets()
+        res = []
+        for v in variants:
+            e = re.sub(r"(?:Self|CompletionService)\s*::\s*(\w+)\s*\(\s*&?\s*sym_info\.sym_type\s*\)",
+                       lambda k: (" True " if v in preds[k.group(1)] else " False ") if k.group(1) in preds else " ?? ", expr)
+            for _ in range(6):     # `if c { a } else { b }`  ->  ((a) if (c) else (b)), innermost first
+                e2 = re.sub(r"\bif\s+([^{}]*?)\{([^{}]*)\}\s*else\s*\{([^{}]*)\}", r" ((\2) if (\1) else (\3)) ", e)
+                if e2 == e:
+                    break
+                e = e2
+            e = e.replace("&&", " and ").replace("||", " or ").replace("!", " not ")
+            e = re.sub(r"\btrue\b", "True", re.sub(r"\bfalse\b", "False", e)).replace("return", " ").replace(";", " ")
+            e = " ".join(e.split())
+            if e.startswith("{") and e.endswith("}"):
+                e = e[1:-1].strip()
+            if not re.fullmatch(r"[\s()]*(?:(?:True|False|not|and|or|if|else)[\s()]*)+", e):
+                raise ValueError("filter of %s: closure not understood (%r)" % (fn, e[:80]))
+            if eval(e, {"__builtins__": {}}, {}) == (verdict == "true"):
+                res.append(v)
+        return res
+    # as SETS (the model only asks for membership): sorted, so that equivalent spellings give the same table
+    rhs_keep = sorted(kinds("generate_completion_items_rhs", "true"))
+    lhs_drop = sorted(kinds("generate_completion_items_lhs", "false"))
 
     L = extract.lean_str
     out = ["namespace Gold.ScopeGen", "",
